@@ -36,8 +36,8 @@ SCHED_PLANS = {
     "C06": [("prio", 150, 3000), ("base", 250, 5000), ("pop", 100, 2000), ("queue", 80, 1500), ("stop", 40, 800), ("manualqueue", 40, 800), ("latequeue", 30, 600), ("heap", 60, 1200), ("latewindow", 30, 600)],
     "C11": SAFE + [("fault", 80, 1500)],
     "C12": [("narrow", 80, 1500), ("base", 250, 5000), ("pop", 60, 1000), ("queue", 60, 1000), ("stop", 40, 800), ("nq", 40, 800)],
-    "C13": [("base", 250, 5000), ("tail", 150, 3000), ("pop", 60, 1000), ("stop", 60, 1500), ("manual", 40, 800)],
-    "C14": [("stop", 250, 5000), ("stoppop", 80, 1500), ("stop@free", 150, 3000), ("base@free", 50, 1000), ("manual", 60, 1000), ("none", 60, 1000), ("base", 60, 1000)],
+    "C13": [("base", 250, 5000), ("tail", 150, 3000), ("rmtail", 80, 1500), ("pop", 60, 1000), ("stop", 60, 1500), ("manual", 40, 800)],
+    "C14": [("stop", 250, 5000), ("stoppop", 80, 1500), ("stop@free", 150, 3000), ("base@free", 50, 1000), ("manual", 60, 1000), ("none", 60, 1000), ("base", 60, 1000), ("latefault", 60, 1000), ("fault", 40, 800)],
     "C15": [("fault", 250, 5000), ("latefault", 80, 1500), ("base", 40, 500)],
     "C16": SAFE + FIND,
     "C17": [("queue", 250, 5000), ("overtall", 60, 1000), ("manualqueue", 100, 2000), ("latequeue", 80, 1500), ("pop", 40, 800), ("popqueue", 60, 1000), ("latewindow", 60, 1000)],
@@ -482,8 +482,10 @@ def term_part(prop, tier, seed):
         states = sum(r["states"] for r in d)
         trans = sum(r["transitions"] for r in d)
         binary = core.build_harness(wd)
-        fams = [("pop", 150, 3000), ("base", 80, 1500), ("queue", 40, 800), ("popqueue", 80, 1500), ("latewindow", 40, 800)] if prop == "C18" else [("base", 100, 2000), ("pop", 100, 2000), ("queue", 40, 800), ("popqueue", 50, 1000)]
+        fams = [("pop", 150, 3000), ("base", 80, 1500), ("queue", 40, 800), ("popqueue", 80, 1500), ("latewindow", 40, 800)] if prop == "C18" else [("rmtail", 120, 2500), ("base", 80, 1500), ("tail", 60, 1200)] if prop == "C13" else [("rmtail", 40, 800), ("base", 100, 2000), ("pop", 100, 2000), ("queue", 40, 800), ("popqueue", 50, 1000)]
         scs = gen.batch(seed + 7, [(f, q if tier == "quick" else t) for f, q, t in fams])
+        if prop == "C13":
+            scs = [x for x in scs if not x["cfg"]["pop"]]   # text above the bars: the recorded pop-mode findings (F11, F12) are not C13's business
         for sc_ in scs:
             for prog_ in sc_["clients"]:
                 for o_ in prog_:
@@ -690,6 +692,7 @@ PARTS["C04"] = PARTS["C04"] + [twins_part]
 PARTS["C10"] = PARTS["C10"] + [twins_part, stress_part]
 PARTS["C11"] = PARTS["C11"] + [stress_part]
 PARTS["C18"] = [sched_part, core_part, term_part]
+PARTS["C13"] = PARTS["C13"] + [term_part]
 SCHED_PLANS["C07"] = [("overtall", 60, 1000), ("narrow", 60, 1000), ("tall", 30, 400), ("base", 60, 1000)]
 PARTS["C07"] = [fill_part, sched_part]
 PARTS["C08"] = [fill_part]
